@@ -135,6 +135,18 @@ def gen_set(job, s):
     return s['id'], res
 
 
+def guard_spans(text, ks):
+    """line ranges (1-based, inclusive) of the option-guard static_assert statements of a type header"""
+    spans, start = [], None
+    for i, l in enumerate(text.splitlines(), 1):
+        if start is None and re.match(r'\s*static_assert\(\s*' + sym_rx(ks) + r'\s*==', l):
+            start = i
+        if start is not None and ');' in l:
+            spans.append((start, i))
+            start = None
+    return spans
+
+
 def compile_pair(job, p, sets):
     d = os.path.join(job['scratch'], 'tu')
     os.makedirs(d, exist_ok=True)
@@ -151,8 +163,18 @@ def compile_pair(job, p, sets):
            '-fdiagnostics-show-caret', '-DNUNAVUT_ASSERT(x)=assert(x)']
     if p.get('sup'):
         cmd += ['-I', os.path.join(job['scratch'], 'out', p['sup'], 'sup')]
+    cmd += ['-I', os.path.join(job['scratch'], 'inc')]
+    base_cmd = list(cmd)
     cmd += ['-I', typ_dir, tu]
     rc, out = run(cmd)
+    ks = (job.get('keyset') or {}).get(p['lang'])
+    spans = {}
+    for h in headers:
+        try:
+            spans[h] = guard_spans(open(os.path.join(typ_dir, h), encoding='utf-8').read(), ks)
+        except OSError:
+            spans[h] = []
+    region = []
     failed, undeclared = [], []
     fatal = None
     msg_ok = True
@@ -175,9 +197,25 @@ def compile_pair(job, p, sets):
             failed.append([rel, line, sm.group(1)])
             if MESSAGE not in text:
                 msg_ok = False
+        elif rel in spans and any(a <= line <= b for a, b in spans[rel]) and not (sm and re.search(r"undeclared|was not declared|is not a member of|has not been declared|expected '\)' before '=='|expression in static assertion is not an integer", text)):
+            region.append([rel, line, text[:160]])
         elif sm and re.search(r"undeclared|was not declared|is not a member of|has not been declared|expected '\)' before '=='|expression in static assertion is not an integer", text):
             undeclared.append([rel, line, sm.group(1)])
-    return p['id'], {'rc': rc, 'failed': failed, 'undeclared': undeclared, 'message_ok': msg_ok, 'fatal': fatal, 'tail': out[-1200:] if rc else ''}
+    control_rc = None
+    if rc != 0 and not failed and not undeclared and not fatal:
+        # differential: the same translation unit with the guard statements blanked out of the type headers
+        cdir = os.path.join(d, p['id'] + '_ctl')
+        for h in headers:
+            text = open(os.path.join(typ_dir, h), encoding='utf-8').read().splitlines(True)
+            for a, b in spans.get(h, []):
+                for i in range(a - 1, b):
+                    text[i] = '\n'
+            os.makedirs(os.path.dirname(os.path.join(cdir, h)), exist_ok=True)
+            with open(os.path.join(cdir, h), 'w', encoding='utf-8') as f:
+                f.writelines(text)
+        control_rc, _ = run(base_cmd + ['-I', cdir, tu])
+    return p['id'], {'rc': rc, 'failed': failed, 'undeclared': undeclared, 'message_ok': msg_ok, 'fatal': fatal, 'tail': out[-1200:] if rc else '',
+                     'guard_region_errors': region, 'control_rc': control_rc}
 
 
 def main():
@@ -186,6 +224,10 @@ def main():
         path = os.path.join(job['scratch'], 'ns', rel)
         os.makedirs(os.path.dirname(path), exist_ok=True)
         with open(path, 'w', encoding='utf-8') as f:
+            f.write(text)
+    for name, text in (job.get('local_headers') or {}).items():
+        os.makedirs(os.path.join(job['scratch'], 'inc'), exist_ok=True)
+        with open(os.path.join(job['scratch'], 'inc', name), 'w', encoding='utf-8') as f:
             f.write(text)
     jobs = max(1, min(6, int(job.get('jobs', 6))))
     sets, pairs = {}, {}
